@@ -100,6 +100,8 @@ func ZZH_C06_register() {
 // ZZH_C06_lifecycle: request at H=5 with T in {1,2}; optionally one receipt (symbolic type) in a
 // block b in H+1..H+T; then the expiry processing of block H+T (real setTimeoutList,
 // getTimeoutIBTPsMap, setTimeoutRollback, real TransactionManager.Begin/Report).
+// (also C07: a receipt transaction that FAILED must not touch the timeout bookkeeping)
+// zz:also C07
 func ZZH_C06_lifecycle() {
 	exec := zzNewExec(1, big.NewInt(0))
 	H := uint64(5)
@@ -166,7 +168,7 @@ func ZZH_C06_lifecycle() {
 // ZZH_C06_two_receipts: two requests accepted in block H with the same timeout height; both
 // receipts (symbolic types) arrive in ONE later block; at H+T neither an accepted one is
 // listed nor its final status altered (C04: final statuses never change again).
-// zz:also C04
+// zz:also C04 C07
 func ZZH_C06_two_receipts() {
 	exec := zzNewExec(1, big.NewInt(0))
 	H, T := uint64(5), int64(2)
